@@ -5,4 +5,4 @@ export GOFLAGS=-mod=mod GOPROXY=off GOSUMDB=off GOTOOLCHAIN=local GOWORK=off
 mkdir -p /verif/bin /verif/evidence
 (cd /verif/gosym && go build -o /verif/bin/gosym .)
 # warm the native build (patched grocksdb + 0chain packages) used by replays
-(cd /verif/hmod && go build ./... ) || echo "warning: native warm-up build failed (replays will report it)"
+(cd /verif/hmod && go build . ) || echo "warning: native warm-up build failed (replays will report it)"
